@@ -358,12 +358,14 @@ pub fn replay_case(case: &Value, corpus_dir: &str, scratch: &str, trace: &mut Nd
     runner.run(&cat, &pats, &entries, &res, rec.get("pruned_result").is_some(), "replay", trace, out);
 }
 
-const C16_NAMES: [&str; 28] = [
+const C16_NAMES: [&str; 36] = [
+    // eligible names that merely look special (a forge script, a mock, a name with several dots), configuration files
+    "Deploy.s.sol", "Mock.m.sol", "v1.2.3.sol", "Test.sol", "test.sol", "Solstat.toml", ".gitignore", "solstat_report.md.old",
     "na\u{ef}ve.md", "\u{65e5}\u{672c}\u{8a9e}.txt", "caf\u{e9}s.txt", "X\u{e9}a.sol", "\u{8a9e}.sol", "\u{e9}t\u{e9}.t.sol",
     "A.sol", "a.SOL", "A.Sol", "A.sol.txt", "A.solx", ".sol", "sol", "A.t.sol", "A.T.SOL", "A.T.sol", "A.t.Sol", "t.sol", "At.sol",
     "A.tsol", "A.sol~", "A sol", "\u{c4}.sol", "README.md", "A.json", "B.sol", "Mock.t.sol", "x.T.Sol",
 ];
-const DIR_NAMES: [&str; 8] = ["src", "lib.sol", "test.t.sol", "deep", ".hidden", "a b", "na\u{ef}ve", "Mocks.T.SOL"];
+const DIR_NAMES: [&str; 12] = ["src", "lib.sol", "test.t.sol", "deep", ".hidden", "a b", "na\u{ef}ve", "Mocks.T.SOL", "script", "v0.8", "out", "node_modules"];
 
 fn random_tree(rng: &mut Rng, depth: usize, budget: &mut usize, contents: &Vec<String>, c16: bool) -> Vec<Node> {
     let mut names: Vec<&str> = C16_NAMES.to_vec();
@@ -449,17 +451,17 @@ pub fn random(corpus_dir: &str, scratch: &str, count: usize, c16: bool, trace: &
     // directed: every ordered pair of witness contents as siblings (flat, and the second one level down), with all
     // patterns of the category co-selected in both orders -- a verdict must not depend on the sibling, on its
     // position in the listing or on the co-selected patterns (C15 iii; also an instance of the union, C03)
-    // "at every directory depth": an eligible file twelve directories down, one on the way, one at the top
+    // "at every directory depth": an eligible file forty directories down, some on the way, one at the top
     for cat in cats {
         let (pats, ids, res) = &usable[cat];
         if !ids.iter().any(|i| i == "c1") || !ids.iter().any(|i| i == "c2") {
             continue;
         }
         let mut inner = vec![Node::File { name: "Bottom.sol".to_string(), content_id: "c1".to_string(), bytes: vec![] }];
-        for level in (1..=12).rev() {
+        for level in (1..=40).rev() {
             let mut here = vec![Node::Dir { name: format!("d{}", level), entries: inner }];
-            if level == 6 {
-                here.push(Node::File { name: "Midway.sol".to_string(), content_id: "c2".to_string(), bytes: vec![] });
+            if level == 6 || level == 17 || level == 33 {
+                here.push(Node::File { name: format!("Midway{}.sol", level), content_id: "c2".to_string(), bytes: vec![] });
             }
             inner = here;
         }
